@@ -263,3 +263,134 @@ Lemma cells_tile_pixel (ps c : RR) s : (1 <= s)%nat ->
 Proof.
   intros Hs. pose proof (INR_pos_of_le s Hs). unfold cell_y_hi, cell_x_lo. cbn [INR]. repeat split; field; auto.
 Qed.
+
+(* ------------------------------------------------------------------ binning *)
+Lemma iter_S {St} n (g : St -> St) st : Nat.iter (S n) g st = g (Nat.iter n g st).
+Proof. reflexivity. Qed.
+Lemma iter_shift {St} n (g : St -> St) st : Nat.iter n g (g st) = g (Nat.iter n g st).
+Proof. induction n as [|n IH]; [reflexivity|]. change (g (Nat.iter n g (g st)) = g (g (Nat.iter n g st))). now rewrite IH. Qed.
+Lemma iter_plus {St} a b (g : St -> St) st : Nat.iter (a + b) g st = Nat.iter a g (Nat.iter b g st).
+Proof. induction a as [|a IH]; [reflexivity|]. change (g (Nat.iter (a + b) g st) = g (Nat.iter a g (Nat.iter b g st))). now rewrite IH. Qed.
+Lemma iter_for_range {St} n (g : St -> St) st : for_range n (fun _ st => g st) st = Nat.iter n g st.
+Proof.
+  unfold for_range. revert st. generalize 0%nat as k.
+  induction n as [|n IH]; intros k st; cbn [seq fold_left Nat.iter]; auto.
+  rewrite IH. apply iter_shift.
+Qed.
+Lemma iter_iter {St} a b (g : St -> St) st : Nat.iter a (Nat.iter b g) st = Nat.iter (a * b) g st.
+Proof.
+  induction a as [|a IH]; [reflexivity|].
+  change (Nat.iter (S a) (Nat.iter b g) st) with (Nat.iter b g (Nat.iter a (Nat.iter b g) st)). rewrite IH.
+  change (S a * b)%nat with (b + a * b)%nat. now rewrite iter_plus.
+Qed.
+Lemma for_range2_iter {St} s (g : St -> St) st :
+  for_range s (fun _ st => for_range s (fun _ st => g st) st) st = Nat.iter (s * s) g st.
+Proof.
+  rewrite <- iter_iter, <- iter_for_range. unfold for_range. apply fold_left_ext. intros. apply iter_for_range.
+Qed.
+
+Lemma upd_add_mid (pre rest : list R) x v :
+  @upd_add ROps (pre ++ x :: rest) (length pre) v = pre ++ (x + v) :: rest.
+Proof. induction pre; cbn; congruence. Qed.
+
+Definition bin_step (arr : list R) (i : nat) (c : R) (st : nat * list R) : nat * list R :=
+  (S (fst st), @upd_add ROps (snd st) i (nth (fst st) arr 0 * c)).
+
+Lemma bin_step_iter arr pre rest c t : forall k x,
+  Nat.iter t (bin_step arr (length pre) c) (k, pre ++ x :: rest)
+  = ((k + t)%nat, pre ++ (x + c * sumR (map (fun j => nth (k + j) arr 0) (seq 0 t))) :: rest).
+Proof.
+  induction t as [|t IH]; intros k x.
+  - cbn. rewrite Nat.add_0_r. repeat f_equal. lra.
+  - rewrite iter_S, IH. unfold bin_step. cbn [fst snd]. rewrite upd_add_mid.
+    f_equal; [lia|]. f_equal. f_equal. rewrite seq_S, map_app, sumR_app. cbn. lra.
+Qed.
+
+Lemma skipn_cons_nth {A} (d : A) l : forall k, (k < length l)%nat -> skipn k l = nth k l d :: skipn (S k) l.
+Proof.
+  induction l as [|a l IH]; intros k Hk; cbn in Hk; [lia|].
+  destruct k; [reflexivity|]. cbn [skipn nth]. rewrite IH by lia. reflexivity.
+Qed.
+Lemma firstn_skipn_seq {A} (d : A) l t : forall k, (k + t <= length l)%nat ->
+  firstn t (skipn k l) = map (fun j => nth (k + j) l d) (seq 0 t).
+Proof.
+  induction t as [|t IH]; intros k Hk; [reflexivity|].
+  rewrite (skipn_cons_nth d) by lia. cbn [firstn seq map]. rewrite Nat.add_0_r. f_equal.
+  rewrite IH by lia. rewrite <- seq_shift, map_map. apply map_ext. intros j. f_equal. lia.
+Qed.
+
+Lemma skipn_add {A} (l : list A) : forall a b, skipn a (skipn b l) = skipn (b + a) l.
+Proof.
+  induction l as [|x l IH]; intros a b.
+  - destruct a, b; reflexivity.
+  - destruct b; [reflexivity|]. cbn [skipn Nat.add]. apply IH.
+Qed.
+Definition sqs (ss : list nat) : list nat := map (fun s => (s * s)%nat) ss.
+
+Lemma list_sum_cons a l : list_sum (a :: l) = (a + list_sum l)%nat.
+Proof. reflexivity. Qed.
+Definition bin_fold (arr : list R) (st : nat * list R) (is : nat * nat) : nat * list R :=
+  Nat.iter (snd is * snd is) (bin_step arr (fst is) (1 / INR (snd is ^ 2))) st.
+
+Lemma mean_R (l : list R) : @mean ROps l = sumR l / INR (length l).
+Proof. unfold mean. rewrite sumT_sumR, ofNat_R. reflexivity. Qed.
+
+Lemma bin_fold_all arr : forall ss done k,
+  subs_ok ss -> (k + list_sum (sqs ss) <= length arr)%nat ->
+  fold_left (bin_fold arr) (combine (seq (length done) (length ss)) ss) (k, done ++ @zeros ROps (length ss))
+  = ((k + list_sum (sqs ss))%nat, done ++ map (@mean ROps) (chop (sqs ss) (skipn k arr))).
+Proof.
+  induction ss as [|s ss IH]; intros done k Hs Hk.
+  - cbn. now rewrite Nat.add_0_r.
+  - inversion Hs as [|? ? Hs1 Hs']; subst. cbn [sqs map] in Hk. fold (sqs ss) in Hk. rewrite list_sum_cons in Hk.
+    cbn [length seq combine fold_left sqs map chop]. unfold bin_fold at 2. cbn [fst snd].
+    unfold zeros. cbn [repeat]. rewrite bin_step_iter.
+    replace (done ++ _ :: repeat zero (length ss)) with ((done ++ [@mean ROps (firstn (s * s) (skipn k arr))]) ++ @zeros ROps (length ss)).
+    + specialize (IH (done ++ [@mean ROps (firstn (s * s) (skipn k arr))]) (k + s * s)%nat Hs').
+      rewrite app_length in IH. cbn [length] in IH. rewrite Nat.add_1_r in IH. fold (sqs ss). etransitivity; [apply IH; lia|].
+      rewrite list_sum_cons. f_equal; [lia|]. rewrite <- app_assoc. cbn [app]. do 3 f_equal.
+      now rewrite skipn_add.
+    + rewrite <- app_assoc. cbn [app]. unfold zeros. do 2 f_equal.
+      rewrite mean_R, (firstn_skipn_seq 0) by lia. rewrite map_length, seq_length.
+      rewrite Nat.pow_2_r. unfold zero. cbn [ofZ ROps].
+      assert (INR (s * s) <> 0) by (apply not_0_INR; nia). change (T ROps) with R. field. auto.
+Qed.
+
+Lemma in_combine_seq {A} (d : A) l : forall k i s, In (i, s) (combine (seq k (length l)) l) ->
+  (k <= i < k + length l)%nat /\ nth (i - k) l d = s.
+Proof.
+  induction l as [|a l IH]; intros k i s Hin; cbn in Hin; [contradiction|].
+  destruct Hin as [E|Hin].
+  - inversion E; subst. rewrite Nat.sub_diag. cbn. split; [lia|reflexivity].
+  - apply IH in Hin. destruct Hin as [Hr Hn]. cbn [length]. split; [lia|].
+    replace (i - k)%nat with (S (i - S k)) by lia. exact Hn.
+Qed.
+Lemma zpixels_nth m ss z : length ss = length (unmasked m) -> In z (zpixels m ss) ->
+  (fst (fst z) < length ss)%nat /\ nth (fst (fst z)) ss 0%nat = snd z.
+Proof.
+  intros Hl Hin.
+  assert (H : In (fst (fst z), snd z) (combine (seq 0 (length ss)) ss)).
+  { rewrite <- (zpixels_idx m ss) by exact Hl. apply (in_map (fun z : ipix * nat => (fst (fst z), snd z))). exact Hin. }
+  apply (in_combine_seq 0%nat) in H. rewrite Nat.sub_0_r in H. destruct H; split; [lia|assumption].
+Qed.
+
+Theorem bin_is_mean_of_own_subvalues (arr : list R) m ss :
+  shape_okP m ss -> length arr = list_sum (sqs ss) ->
+  @binned ROps arr m ss = @spec_binned ROps arr ss.
+Proof.
+  intros [Hl Hs] Ha. unfold binned, spec_binned. fold (sqs ss).
+  rewrite (pixel_loop_zip (fun _ _ index s st =>
+     for_range s (fun _ st => for_range s (fun _ st =>
+       (S (fst st), @upd_add ROps (snd st) index
+          (@nthT ROps arr (fst st) * @nthT ROps (map (fun s => @one ROps / @ofNat ROps (s ^ 2)) ss) index))) st) st)) by exact Hl.
+  rewrite (fold_left_ext _ (fun st (z : ipix * nat) => bin_fold arr st (fst (fst z), snd z))).
+  2:{ intros st z Hz. destruct (zpixels_nth m ss z Hl Hz) as [Hi Hn]. cbn [fst snd].
+      rewrite (for_range2_iter (snd z) (fun st => (S (fst st), @upd_add ROps (snd st) (fst (fst z)) _))).
+      unfold bin_fold, bin_step. cbn [fst snd]. f_equal.
+      unfold nthT. rewrite (nth_indep _ _ (@one ROps / @ofNat ROps (0 ^ 2))) by (now rewrite map_length).
+      rewrite (map_nth (fun s => @one ROps / @ofNat ROps (s ^ 2))), Hn, ofNat_R. reflexivity. }
+  rewrite <- (fold_left_map (bin_fold arr) (fun z : ipix * nat => (fst (fst z), snd z))), zpixels_idx by exact Hl.
+  rewrite pixels_in_mask_length, <- Hl.
+  pose proof (bin_fold_all arr ss [] 0%nat Hs) as H. cbn [length app Nat.add skipn] in H.
+  rewrite H by lia. reflexivity.
+Qed.
